@@ -137,7 +137,11 @@ claim('C03',
       'starting from the extracted NLInfo() defaults: every field is reported as written for every valid header without stochastic entities, '
       'and real-number conversions must carry >= 17 significant digits; StartDefVar writes V <index> <nnz> <position> with the position the NL '
       'format defines (objectives numbered after ALL constraints); WriteConObjExpressions writes C0.., L0.., O0.. in order, each after the '
-      'defined variables of exactly that item (3 loop contracts). (1) Binary numeric constants: the real BinaryFormatter::nput, the real variadic BinaryFormatter::apr (for the '
+      'defined variables of exactly that item (3 loop contracts); WriteBndRangeOrCompl chained with the real NLReader::ReadBounds (one item): the '
+      'handler receives the bounds / the complementarity entry that were written (the writer\'s DBL_MAX infinity convention stated); the lines of '
+      'VPut, FuncPut, OPut1-3, OPutN (argument count, halved for a piecewise-linear term), sparse entries, suffix headers, ColSizeWriter (running '
+      'sum for k, plain for K), WriteColumnSizes (letter, num_vars - 1, writer mode = announced mode), and the J<i> <nnz> / G<i> <nnz> vector headers '
+      'in order (loop contracts). (1) Binary numeric constants: the real BinaryFormatter::nput, the real variadic BinaryFormatter::apr (for the '
       'three formats nput uses) and the real NLReader::ReadConstant with BinaryReader::{ReadInt<short|int|long>, ReadDouble, Read} '
       'are chained over one fully symbolic double: every double is read back with the identical value, bit-identical apart '
       'from the sign of zero, NaN as NaN, and the reader consumes exactly the bytes written. (2) Opcode tables: for every '
@@ -151,7 +155,7 @@ claim('C03',
       'Trusted: CBMC (incl. its va_arg model), extractor, little-endian host, fwrite as a ghost byte buffer, dtoa_r_dmgay '
       '(shortest round-trip digit generation: arbitrary-precision code outside the reach of contracts; a native sweep shows it '
       'is NOT round-trip exact for some doubles next to short decimals, see DESIGN.md 9.5 observations), strtod. Not decided: '
-      'the other segments (bounds, J/G/k, suffixes, initial guesses, functions), names, whole-model text = binary equivalence. The claim is '
+      'suffix value lines, initial guesses (x / d), function definitions (F), string arguments, the dispatch of MakeVectorWriter to its header printer, names, whole-model text = binary equivalence. The claim is '
       'restricted to these lemmas. Native replay: replay/c03_replay.cc, replay/c03_header_replay.cc (headers, defined-variable positions through '
       'the real WriteNLFile / ReadNLFile).',
       'DESIGN.md 4 C03',
@@ -175,7 +179,9 @@ claim('C02',
       'variable / function / common-expression indices in range, every notification names the operator whose opcode was read, '
       'every record starts at a line start. The segment dispatcher NLReader::Read with a loop invariant: segment-head indices in '
       'range, common-expression Begin/End pairing, function type, suffix kind vs item class. Functional clauses: a numeral that does not '
-      'fit its type is rejected, never accepted as a wrapped value (ReadIntWithoutSign); the header round trip: the library\'s own header '
+      'fit its type is rejected, never accepted as a wrapped value (ReadIntWithoutSign); NLFileReader::Read (copy path for page-multiple files: the '
+      'buffer holds size_ + 1 bytes with the terminator at size_, loop contract) and NLFileReader::Open (rounded size; mmap exactly when a zero byte '
+      'follows the content; page sizes 4096 and 65536); the header round trip: the library\'s own header '
       'formatter expanded into a token stream and the real ReadHeader run over it report every field as written, for every valid header.',
       'Trusted: CBMC, extractor, *end_ == 0 (ReaderBase ctor / zero-filled mmap tail), isspace/strtod/memcpy/std::reverse stubs. '
       'Callers use constructive stubs of the callee contracts (a contract that assigns the global cursor cannot be replaced in '
